@@ -12,9 +12,11 @@ import (
 	"encoding/hex"
 	"fmt"
 	"os"
+	"runtime"
 	"sort"
 	"strconv"
 	"strings"
+	"sync"
 	"testing"
 
 	node_common "github.com/alephium/wormhole-fork/node/pkg/common"
@@ -511,10 +513,64 @@ func (p2pHarness) Gen(seed uint64, prop, tier string) *simkit.Program {
 	return p
 }
 
+// storm (race-detector tier): the gossip receive loop and the node's own heartbeat ticker both call
+// into the heartbeat table. Valid heartbeats of one guardian arrive from many new peers at once,
+// truly in parallel, while the table is one or two entries below its cap; whatever the
+// interleaving, the cap holds afterwards.
+func (w *p2pWorld) storm(seed uint64) {
+	gs := w.gst.Get()
+	if gs == nil {
+		return
+	}
+	key := w.cur[int(seed%uint64(len(w.cur)))]
+	addr := simAddrs[key]
+	prev := runtime.GOMAXPROCS(4)
+	defer runtime.GOMAXPROCS(prev)
+	mk := func(i int) *gossipv1.SignedHeartbeat {
+		pl := hbPayload(int64(8 * i))
+		return &gossipv1.SignedHeartbeat{Heartbeat: pl, Signature: sign(key, refDigest(refHeartbeatPrefix, pl)), GuardianAddr: addr.Bytes()}
+	}
+	for round := 0; round < 200; round++ {
+		// a fresh table for this guardian: 13 entries, then 8 new peers at the same moment
+		st := node_common.NewGuardianSetState(nil)
+		st.Set(gs)
+		for i := 0; i < 13; i++ {
+			if _, err := processSignedHeartbeat(peer.ID(fmt.Sprintf("storm-base-%d", i)), mk(i), gs, st, false); err != nil {
+				w.violate("valid-heartbeat-rejected", "storm: valid heartbeat below the cap rejected: %v", err)
+				return
+			}
+		}
+		var wg sync.WaitGroup
+		startC := make(chan struct{})
+		msgs := make([]*gossipv1.SignedHeartbeat, 8)
+		for g := range msgs {
+			msgs[g] = mk(100 + g)
+		}
+		for g := 0; g < 8; g++ {
+			wg.Add(1)
+			go func(g int) {
+				defer wg.Done()
+				<-startC
+				_, _ = processSignedHeartbeat(peer.ID(fmt.Sprintf("storm-%d-%d", round, g)), msgs[g], gs, st, false)
+			}(g)
+		}
+		close(startC)
+		wg.Wait()
+		if n := len(st.GetAll()[addr]); n > 15 {
+			w.violate("heartbeat-table-over-cap", "storm: after 8 concurrent heartbeats from new peers the guardian has %d node entries", n)
+			return
+		}
+	}
+	w.stats.Probe("concurrent-heartbeat-storm")
+}
+
 func (p2pHarness) Exec(p *simkit.Program) *simkit.Result {
 	res := &simkit.Result{Seed: p.Seed, Prop: p.Prop, Steps: len(p.Steps)}
 	w := &p2pWorld{res: res, log: &simkit.Log{}, stats: simkit.NewStats(), gst: node_common.NewGuardianSetState(nil), table: map[string]map[string][]byte{}}
 	w.run(p)
+	if raceBuild && len(w.cur) > 0 && len(res.Violations) == 0 {
+		w.storm(p.Seed)
+	}
 	w.stats.ProbeN("accepted", int64(w.accepted))
 	w.stats.ProbeN("rejected", int64(w.rejected))
 	w.stats.ProbeN("per-guardian-cap-hit", int64(w.capHit))
